@@ -34,7 +34,7 @@ theorem C02_body_reparse (t : Tree) :
 theorem C02_param_order (t : Tree) (hwf : WF t = true) :
     (gen t).params.map Prod.fst = (specParams t).map (fun l => paramName l.info.name) := by
   simp only [WF, wfParamNames, Bool.and_eq_true, Bool.not_eq_true', decide_eq_true_eq] at hwf
-  exact paramNames_spec t hwf.1.2 hwf.1.1.2
+  exact paramNames_spec t hwf.1.2
 
 /-- a leaf is a parameter iff it is not hidden by Go's selector rule, not skipped, and marked when
     any field of the type is marked (definition of `eligible`, restated as the membership test) -/
@@ -63,7 +63,7 @@ theorem C02_value_at_path (t : Tree) (hwf : WF t = true) :
   intro l hl
   have hwf' := hwf
   simp only [WF, wfParamNames, Bool.and_eq_true, Bool.not_eq_true', decide_eq_true_eq] at hwf'
-  obtain ⟨⟨⟨hlev, hnd⟩, hts⟩, hsd⟩ := hwf'
+  obtain ⟨⟨hlev, hnd⟩, hsd⟩ := hwf'
   have hw : WFLevels t := (wfLevels_iff t).mp hlev
   obtain ⟨π, hp, hat⟩ := leafAt_of_mem t true [] false 0 hw l hl
   simp only [List.nil_append] at hp
@@ -80,12 +80,12 @@ theorem C02_value_at_path (t : Tree) (hwf : WF t = true) :
       exact hsd l hl (by simp [hc.1, hs, hc.2])
     simp [hs, eligible, hnd']
   · simp only [hs, Bool.false_eq_true, ↓reduceIte]
-    have hag := shadow_agrees t hts l hl
+    have hag := shadow_agrees t l hl
     cases hsh : genShadow t l.depth l.info.name
     · -- visible leaf
       have hg : goShadowed t l.depth l.info.name = false := by
         rw [← hag, hsh]
-      have hnm := nameMap_of_leaf t (hasNewTop t) hts hnd l hl (by simpa using hs) hsh
+      have hnm := nameMap_of_leaf t (hasNewTop t) hnd l hl (by simpa using hs) hsh
       cases hok : (!hasNewTop t || l.marked)
       · -- not a parameter: default or zero
         rw [hok] at hnm
@@ -135,7 +135,7 @@ theorem C02_select (t : Tree) (l : Leaf) (hl : l ∈ leavesTop t)
 theorem C02_ptr_embeds_allocated (t : Tree) (hwf : WF t = true) (π : List String)
     (h : t.hasEmbedPath π = true) : (gen t).body.hasSub π = true := by
   simp only [WF, Bool.and_eq_true] at hwf
-  have hw : WFLevels t := (wfLevels_iff t).mp hwf.1.1.1
+  have hw : WFLevels t := (wfLevels_iff t).mp hwf.1.1
   rw [C02_body_reparse, hasSub_lit _ _ π true false 0 t hw, h]
 
 /-- for a generic struct the constructor carries the same type parameters and constraints, group by
@@ -156,13 +156,12 @@ example :
     WF t = true ∧ (gen t).params.length = 0 ∧ (specParams t).length = 0 := by
   decide
 
-/-- finding region F_nestedSkipShadows (recorded in known_findings.json): a left-out field of an
-    EMBEDDED struct hides a deeper promoted field of the same name for Go, but the generator only
-    remembers left-out top-level fields, so the hidden field becomes a constructor parameter -/
-theorem C02_F_nestedSkipShadows_witness :
+/-- the repaired case (formerly finding region F_nestedSkipShadows): a left-out field of an EMBEDDED struct hides a
+    deeper promoted field of the same name for Go's selector rule, and for the generator too: it is no parameter -/
+theorem C02_nestedSkip_fixed :
     let t : Tree := .embed "A" "A" false false
       (.field { name := "x", skip := true } (.embed "B" "B" false false (.field { name := "x" } .nil) .nil)) .nil
-    region t = "F_nestedSkipShadows" ∧ (gen t).params.length = 1 ∧ (specParams t).length = 0 := by
+    WF t = true ∧ (gen t).params.length = 0 ∧ (specParams t).length = 0 := by
   decide
 
 /-! non-vacuity: a struct with a shadowed promoted field, a pointer embed, a `new` mark, a default
